@@ -546,14 +546,14 @@ func c15Check(hist []string) ([][2]string, string) {
 }
 
 // C09sio: the sio host's own persistence as a question about state being plain data - the crew histories of
-// C15 at a smaller depth (restart from the state file sio.Stdio writes must be unobservable).
+// C15 at depth 4 (restart from the state file sio.Stdio writes must be unobservable).
 var (
 	c15Prefix        = "C15"
 	c15DepthOverride = 0
 )
 
 func C09sio(c *vh.Ctx) {
-	c15Prefix, c15DepthOverride = "C09/sio-host", 3
+	c15Prefix, c15DepthOverride = "C09/sio-host", 4
 	C15(c)
 }
 
